@@ -195,4 +195,4 @@ QUERIES = [
                                "holders": ["S", "T", "model"], "files": FILES},
           outside=["new_module / new_excel_range specs", "several models sharing absolute paths", "histories longer than 4"]),
 ]
-BUDGET = {"quick": 420, "thorough": 2400}
+BUDGET = {"quick": 420, "thorough": 1200}
